@@ -37,11 +37,15 @@ func (ex *Exec) execCall(st *State, in *ssa.Call) {
 		}
 	}
 	if ex.con != nil && ex.con.Counts != nil {
+		cn := ""
 		if callee := in.Common().StaticCallee(); callee != nil {
-			if v, ok := ex.con.Counts[callee.Name()]; ok {
-				st.ghost["cnt:"+v] = ex.define("cnt", Add(ex.ghostGet(st, "cnt:"+v), IntLit(1)))
-				ex.obsSeen[v] = true
-			}
+			cn = callee.Name()
+		} else if in.Common().IsInvoke() {
+			cn = in.Common().Method.Name()
+		}
+		if v, ok := ex.con.Counts[cn]; ok && cn != "" {
+			st.ghost["cnt:"+v] = ex.define("cnt", Add(ex.ghostGet(st, "cnt:"+v), IntLit(1)))
+			ex.obsSeen[v] = true
 		}
 	}
 	if ex.con != nil && ex.con.Observe != nil {
@@ -533,7 +537,32 @@ func (ex *Exec) callByIfaceContract(st *State, con *Contract, recv T, args []T, 
 	n := ex.vc.fresh("alloc", SInt)
 	ex.vc.assume(st.guard, Ge(n, old))
 	st.ghost["alloc"] = n
-	return ex.havocResults(st, sig, "r.iface")
+	rs := ex.havocResults(st, sig, "r.iface")
+	// assumed postconditions over the results (and the named parameters of the interface method)
+	if len(con.Ensures) > 0 {
+		env := ex.specEnv(st, st, true)
+		for i := 0; i < sig.Params().Len() && i < len(args); i++ {
+			if nm := sig.Params().At(i).Name(); nm != "" && nm != "_" {
+				env.vars[nm] = TV{args[i], sig.Params().At(i).Type()}
+			}
+		}
+		for i := 0; i < sig.Results().Len() && i < len(rs); i++ {
+			tv := TV{rs[i], sig.Results().At(i).Type()}
+			env.vars[fmt.Sprintf("result%d", i)] = tv
+			if i == 0 {
+				env.vars["result"] = tv
+			}
+		}
+		for _, en := range con.Ensures {
+			t, err := env.evalBool(en.Expr)
+			if err != nil {
+				ex.fail("interface contract %s ensures %q: %v", con.Name, en.Src, err)
+				continue
+			}
+			ex.vc.assume(st.guard, t)
+		}
+	}
+	return rs
 }
 
 // applyModifies havocs exactly what the callee's contract lists.
